@@ -30,14 +30,16 @@ def Reader.read (r : Reader) (n : Nat) : Reader × Bytes × Option RErr :=
     let out := (r.content.drop r.pos).take n
     ({ r with pos := r.pos + out.length }, out, none)
 
+def Reader.seekPos (r : Reader) (abs : Int) : Reader × Nat × Option RErr :=
+  if abs < 0 then (r, 0, some .negPos)
+  else ({ r with pos := abs.toNat }, abs.toNat, none)
+
 def Reader.seek (r : Reader) (offset whence : Int) : Reader × Nat × Option RErr :=
   if whence = 0 ∨ whence = 1 ∨ whence = 2 then
-    let abs : Int :=
-      if whence = 0 then offset
-      else if whence = 1 then wrap64 (r.pos + offset)
-      else wrap64 (r.content.length + offset)
-    if abs < 0 then (r, 0, some .negPos)
-    else ({ r with pos := abs.toNat }, abs.toNat, none)
+    r.seekPos
+      (if whence = 0 then offset
+       else if whence = 1 then wrap64 (r.pos + offset)
+       else wrap64 (r.content.length + offset))
   else (r, 0, some .invalidWhence)
 
 def Reader.skip (r : Reader) (n : Int) : Reader × Nat × Option RErr := r.seek n 1
